@@ -584,13 +584,23 @@ def withBounds (dataLen selfStart bStart bEnd : Int) (boundaryOk : Bool) : Res (
     (ckUsize (bEnd + selfStart)).bind fun b =>
       .ok (if a ≤ b ∧ b ≤ dataLen ∧ boundaryOk then some (a, b) else none)
 
+/-- `StringSlice::with_bounds` since 42b084b: the new bounds must lie within the slice itself
+(`bounds.end > self.end - self.start` ⇒ `None`) before the offsets are added -/
+def stringWithBounds (dataLen selfStart selfEnd bStart bEnd : Int) (boundaryOk : Bool) : Res (Option (Int × Int)) :=
+  (ckUsize (selfEnd - selfStart)).bind fun ownLen =>
+    if bEnd > ownLen then .ok none else withBounds dataLen selfStart bStart bEnd boundaryOk
+
 /-- `StringSlice::split`: `self.bounds.start + offset`, then `is_char_boundary` (non-panicking) -/
 def stringSliceSplit (dataLen selfStart offset : Int) (boundaryOk : Bool) : Res (Option Int) :=
   (ckUsize (selfStart + offset)).bind fun p => .ok (if p ≤ dataLen ∧ boundaryOk then some p else none)
 
-/-- `KotoLexer::peek(n)`: `token_queue_len + 1 - n.max(token_queue_len)` tokens are lexed -/
-def lexerPeek (queueLen n : Int) : Res Int :=
+/-- before b5b4493: `KotoLexer::peek(n)` lexed `token_queue_len + 1 - n.max(token_queue_len)` tokens -/
+def lexerPeekOld (queueLen n : Int) : Res Int :=
   (ckUsize (queueLen + 1)).bind fun a => ckUsize (a - max n queueLen)
+
+/-- `KotoLexer::peek(n)` (current): `(n + 1).saturating_sub(token_queue_len)` tokens are lexed -/
+def lexerPeek (queueLen n : Int) : Res Int :=
+  (ckUsize (n + 1)).bind fun a => .ok (max 0 (a - queueLen))
 
 /-! ## `format_source_excerpt` (crates/parser/src/error.rs) -/
 
